@@ -197,9 +197,14 @@ func (m *UDPMuxDefault) GetConn(ufrag string, addr net.Addr) (net.PacketConn, er
 	}
 
 	muxedConn, ok := m.getConn(ufrag, isIPv6)
-	if ok && muxedConn.isClosed() {
-		// closed, but its close watcher has not unregistered it yet
+	if ok && (muxedConn.isClosed() || !retainShared(&muxedConn.refs)) {
+		// closed (or being closed by the Close of its last wrapper), but its
+		// close watcher has not unregistered it yet
 		ok = false
+	}
+	if ok {
+		// drop the temporary reference once the new wrapper holds its own
+		defer muxedConn.refs.Add(-1)
 	}
 	if !ok {
 		muxedConn = m.createMuxedConn(ufrag)
